@@ -96,6 +96,34 @@ def gen_one(job):
         return job, None, "machinery: " + traceback.format_exc()
 
 
+def replay_one(job):
+    """spec -> code: replays one TLC-generated behaviour into the real engine"""
+    fam, tid, sc, beh = job
+    from harness import replay
+    from harness.rec import Unrepresentable
+    import ciw
+    if not os.path.abspath(ciw.__file__).startswith(os.path.abspath(REPO)):
+        return job, None, "machinery: ciw imported from %s, not %s" % (ciw.__file__, REPO)
+    try:
+        t, div = replay.replay(copy.deepcopy(sc), beh, tid=tid)
+        t["family"] = "replay:" + fam
+        t["seed"] = tid
+        t["scenario"] = sc
+        t["divergence"] = div
+        return job, t, None
+    except Unrepresentable as e:
+        return job, None, "unrepresentable: %s" % e
+    except Exception:
+        return job, None, "machinery: " + traceback.format_exc()
+
+
+def run_pool(fn, jobs, procs=16):
+    ctx = mp.get_context("spawn")
+    os.environ["PYTHONPATH"] = REPO + os.pathsep + VERIF
+    with ctx.Pool(procs, initializer=_worker_init, initargs=(REPO,)) as pool:
+        return pool.map(fn, jobs, chunksize=4)
+
+
 def generate_traces(jobs, procs=16):
     ctx = mp.get_context("spawn")
     os.environ["PYTHONPATH"] = REPO + os.pathsep + VERIF
@@ -192,6 +220,38 @@ def run_check(prop, tier, seed):
         for m in machinery:
             log("MACHINERY-ERROR", m)
         return 2
+    # ---- 1b. spec -> code: behaviours of the specification (TLC -simulate) replayed into the real engine
+    from harness.scenario import normalise
+    rjobs = []
+    nb_beh = 0
+    for fam in P["mc"]:
+        for k, (scs, maxc) in enumerate(mc_instances(fam, tier)):
+            if any(s.get("stop", "time") != "time" for s in scs):
+                continue
+            scs2 = [dict(copy.deepcopy(s), T=10 ** 5) for s in scs]
+            cfgs = [tlc.cfg_of(copy.deepcopy(s)) for s in scs2]
+            r = tlc.run_mc(os.path.join(work, "sim_%s_%d" % (fam, k)), cfgs, [], [], max_created=100, timeout=120,
+                           simulate=(30 if tier == "quick" else 300), depth=14, seed=seed, export=True, workers=4)
+            behs = tlc.parse_behaviours(r["out"])
+            for b in behs[:(40 if tier == "quick" else 400)]:
+                nb_beh += 1
+                rjobs.append((fam, 900000 + nb_beh, normalise(copy.deepcopy(scs2[b[0]["idx"] - 1])), b))
+    rres = run_pool(replay_one, rjobs) if rjobs else []
+    replayed, divergent = [], []
+    for job, t, err in rres:
+        if err is not None:
+            if err.startswith("machinery"):
+                log("MACHINERY-ERROR", err)
+                return 2
+            continue
+        replayed.append(t)
+        if t["divergence"]:
+            divergent.append(t)
+    cov["spec_behaviours_replayed"] = len(replayed)
+    cov["replay_divergences"] = len(divergent)
+    for t in divergent[:3]:
+        log("REPLAY-DIVERGENCE family=%s %s" % (t["family"], json.dumps(t["divergence"])[:300]))
+    log("replayed %d TLC behaviours into the engine (%d divergent) in %.1fs" % (len(replayed), len(divergent), time.time() - t0))
     # ---- 2. code -> spec: traces of the real engine
     fams = P["fam"]
     others = [f for f in ALLFAM if f not in fams] or fams
@@ -215,6 +275,7 @@ def run_check(prop, tier, seed):
                 unrep.append((t, err))
         else:
             traces.append(t)
+    traces = replayed + traces
     log("generated %d traces (%d skipped) in %.1fs" % (len(traces), len(skipped), time.time() - t0))
     nb = 16
     batches = [traces[i::nb] for i in range(nb)]
